@@ -17,6 +17,7 @@ CHECKS.update({
  'C09': dict(level='model_checking', text='Every operator, operator behind ContextWithValue, and ordered pair x every legal script with context markers at three levels; every callback context inspected.', note=COMMON_NOTE, technique='exhaustive bounded input enumeration with context-marker oracle', ref='§5 C09'),
  'C12': dict(level='model_checking', text='Every operator/pair x every legal script: re-subscription x3 vs fresh pipeline, subscription counters, and one operator value applied to three sources in all six orders vs fresh twins.', note=COMMON_NOTE, technique='exhaustive bounded enumeration of scripts, re-subscription histories and application orders (differential against a fresh instance)', ref='§5 C12'),
 })
+CHECKS['C07'] = dict(level='fault_enumeration', text='Fault enumeration on the real code: a fault-free run discovers every user-callback slot of the operator and its invocation count; then every (slot, invocation index, fault kind) is injected, one per execution, plus every notification index of the final observer and every position of the subscribe function; trace-shape oracle (prefix, exactly one matching Error, nothing after), no escaped or goroutine-top panic (the controlled runtime records what would have crashed the process), follow-up subscription usable.', note=COMMON_NOTE+' One fault per execution (no pairs of faults yet); invocation index capped at 3.', technique='exhaustive fault-position enumeration over operator x script x callback slot x invocation index x fault kind', ref='§5 C07')
 NA = {}
 ALL = ['C%02d' % i for i in range(1, 21)]
 m = {
